@@ -21,7 +21,15 @@ func detVerdict(b []byte, limit time.Duration) string {
 		}()
 		in := make([]byte, len(b)) // exact capacity: no spare bytes behind the input
 		copy(in, b)
-		exact := verifapi.CborDeterministic(in) == nil
+		exactPanic := false
+		exact := func() (ok bool) {
+			defer func() {
+				if r := recover(); r != nil {
+					ok, exactPanic = false, true
+				}
+			}()
+			return verifapi.CborDeterministic(in) == nil
+		}()
 		// the same bytes as a prefix of a larger buffer (a reused read buffer, a sub-slice): the verdict is a function of
 		// the byte string, not of what happens to lie behind it in memory
 		for _, fill := range []byte{0x00, 0xff, 0x61} {
@@ -43,7 +51,9 @@ func detVerdict(b []byte, limit time.Duration) string {
 				return
 			}
 		}
-		if !exact {
+		if exactPanic {
+			ch <- "panic"
+		} else if !exact {
 			ch <- "error"
 		} else {
 			ch <- "nil"
